@@ -45,13 +45,15 @@ class Table:
     Data Class for Table
     """
 
-    def __init__(self, name: str, schema: Schema = Schema(), **kwargs):
+    def __init__(self, name: str, schema: Optional[Schema] = None, **kwargs):
         """
         :param name: table name
-        :param schema: schema as defined by :class:`Schema`
+        :param schema: schema as defined by :class:`Schema`, the configured default schema if omitted
         """
         if "." not in name:
-            self.schema = schema
+            # the default must be built per call: a default argument value is evaluated once, at import time,
+            # and would ignore SQLLINEAGE_DEFAULT_SCHEMA / SQLLineageConfig(DEFAULT_SCHEMA=...) set later
+            self.schema = schema if schema is not None else Schema()
             self.raw_name = escape_identifier_name(name)
         else:
             schema_name, table_name = name.rsplit(".", 1)
